@@ -604,3 +604,11 @@ Definition config_of (feats : list (N * N)) (objs : list obj) (cmds : list N)
 Definition fileop_table (a b c d e f : option bool) (o : fileop) : option bool :=
   match o with OpWillCreate => a | OpDidCreate => b | OpWillDelete => c | OpDidDelete => d
              | OpWillRename => e | OpDidRename => f end.
+
+(* A session: the same server receives `initialize` several times.  lsp_initialize reads the
+   registry, the server's settings and THIS request's client capabilities, builds the capabilities
+   anew and replaces the workspace; it reads nothing an earlier initialize left behind.  So the
+   k-th result is lsp_initialize of the k-th inputs - the model has no state in which an earlier
+   initialize could survive (that the code has none either is what the session cases of the
+   correspondence run check). *)
+Definition session (cs : list config) : list init_result := map lsp_initialize cs.
